@@ -8,11 +8,11 @@ PROP = dict(
                   "decoder instances decUtf8 / decTable model golang.org/x/text decoders called with atEOF=true (multi-byte legacy charsets: see C11)",
                   "the no-swallow oracle's tokeniser (harness/engines/parsechunk.go) is a reading of ECMA-48 / xterm ctlseqs / RFC 3629; it only places sequence boundaries"],
     assumptions=["no escape timeout expires between the reads of a partition (only the last read may carry it)",
-                 "Stable cfg: prefix-free key table, keyGuard (decided by kernel evaluation for every database entry), decoder laws (proved for UTF-8 and single-byte charsets), repaired clipboard parser where that parser is active",
+                 "Stable cfg: prefix-free key table, keyGuard (both decided by kernel evaluation for every database entry: db_stable, no entry excepted), decoder laws (proved for UTF-8 and single-byte charsets), repaired clipboard parser where that parser is active",
                  "where two readings of the same bytes compete (a key that is also a report) the statement does not fix the winner and the oracle is silent"],
 )
 META = dict(
     technique="Lean 4 proof (prefix monotonicity of every parser + priority stability of every parser pair => chunk independence of the main loop) about a model of tscreen.go's input parser, differential correspondence and property oracles through the verif parser hook",
-    text="Tcell.Props.C02 proves for all byte strings a b, all parser states and all configurations satisfying the decidable/Prop hypothesis Stable: collect (a++b) = collect a then collect (rest++b) (collect_append), hence equality for every partition into reads (feed_chunks_eq_feed_concat), expire_drains, never_stalls, no_swallow, not_order_dependent; Stable is discharged by kernel evaluation for the key table of every regenerated database entry that has no key extending a focus report, the decoder laws are proved for UTF-8 and all single-byte charsets. The pinned parseClipboard is refuted by decide-checked counterexamples (event lost / bytes swallowed depending on chunking), the rxvt Ctrl-arrow keys `ESC [ O a..d` clash with the focus-out report. Engine `parsechunk` feeds token strings of every kind (keys of every entry, SGR/X11 mouse, paste, focus, OSC 52 BEL/ST, UTF-8, invalid bytes, lone ESC, near misses, random bytes) under all single splits / random partitions to the real parser and the model, compares one read with the partition (chunk-*) and the whole stream with the concatenation of its sequences (swallow-*).",
-    note="Findings: parseClipboard cuts relative to the end of the buffer and skips the prefix unchecked (fixes/C02-clipboard.patch); rxvt Ctrl-arrows extend the focus-out report (fixes/C02-rxvt-ctrl-arrows.patch); parseSgrMouse ignores unknown bytes (open, no patch).",
+    text="Tcell.Props.C02 proves for all byte strings a b, all parser states and all configurations satisfying the decidable/Prop hypothesis Stable: collect (a++b) = collect a then collect (rest++b) (collect_append), hence equality for every partition into reads (feed_chunks_eq_feed_concat), expire_drains, never_stalls, no_swallow, not_order_dependent; Stable is discharged by kernel evaluation for the key table of EVERY regenerated database entry with no exception (db_guard, db_stable; the clipboard parser variant is the one the tree implements, Gen.clipFixed from a translator probe), giving db_chunk_independent: for the screen of every built-in entry (UTF-8, any size, either X11 variant) every partition into reads equals one read, and db_expire_drains; the decoder laws are proved for UTF-8 and all single-byte charsets. The pinned parseClipboard is refuted by decide-checked counterexamples (event lost / bytes swallowed depending on chunking; fixed by 6c7d26f), the pre-7758baa rxvt Ctrl-arrow keys `ESC [ O a..d` clash with the focus-out report (rxvt_focus_clash). Engine `parsechunk` feeds token strings of every kind (keys of every entry, SGR/X11 mouse, paste, focus, OSC 52 BEL/ST, UTF-8, invalid bytes, lone ESC, near misses, random bytes) under all single splits / random partitions to the real parser and the model, compares one read with the partition (chunk-*) and the whole stream with the concatenation of its sequences (swallow-*).",
+    note="Findings: parseClipboard cuts relative to the end of the buffer and skips the prefix unchecked (fixed: 6c7d26f); rxvt Ctrl-arrows extend the focus-out report (fixed: 7758baa); parseSgrMouse ignores unknown bytes (open).",
 )
